@@ -44,6 +44,7 @@ class DCConfig:
     server_tokens: t.Sequence[bytes] = (b"SRV1", b"")
     reply_align: int = 16
     reply_pad_fill: int = 0xBB
+    other_op_reply: t.Optional[bytes] = None  # if set: a request whose stub is not a GetKey request is answered with this (sealed) stub instead of a fault
     reply_fragment_cuts: t.Optional[t.Sequence[int]] = None  # stub offsets at which the GetKey reply is split into individually sealed fragments
     reply_pad_exact: t.Optional[int] = None  # force an auth pad length 0..255 regardless of alignment
     l2_key_absent_at_31: bool = False
@@ -352,6 +353,10 @@ class Conn:
             req = gkdi.dec_getkey_request(parts["stub_and_pad"])
         except Exception as ex:
             e["decode_error"] = f"{type(ex).__name__}: {ex}"
+            if cfg.other_op_reply is not None:
+                # (stands for any other operation of the interface: the reply is sealed like every reply on this connection)
+                e["reply_stub_len"] = len(cfg.other_op_reply)
+                return self.seal_response(m, cfg.other_op_reply, e)
             return self.fault(m, 0x000006F7)
         e["getkey"] = {k: req[k] for k in ("target_sd", "root_key_id", "l0", "l1", "l2")}
         e["getkey_consumed"] = req["consumed"]
